@@ -9,6 +9,8 @@ E, F = K.E, K.F
 
 def run(chk):
     prog, base = setup(chk)
+    from .common import state_shape
+    state_shape(chk, prog)
     chk.bounds = ["all inputs of the right length (symbolic contents) and every other length (one symbolic length) for the seven fallible setters; arbitrary prior receiver contents"]
     chk.outside = []
     chk.assumptions = ["data callees summarised by contracts (as in C04/C08/C13); write sets come from executing the real setter bodies (effects log)"]
